@@ -173,23 +173,24 @@ class Check:
             self.oblige("leanchecker " + module, rc == 0, out + err)
 
     # ---------------- Rust side ----------------
-    def cargo_build(self, bins):
+    def cargo_build(self, bins, profile=None):
+        """profile=None: the dev profile (debug assertions on); profile="nodebug": release semantics (harness/Cargo.toml)"""
         env = {"CARGO_NET_OFFLINE": "true", "RUSTFLAGS": "--cfg qmc_verif --cap-lints warn", "CARGO_TARGET_DIR": TARGET}
-        cmd = ["cargo", "build", "--offline", "--quiet"]
+        cmd = ["cargo", "build", "--offline", "--quiet"] + (["--profile", profile] if profile else [])
         for b in bins:
             cmd += ["--bin", b]
         with Lock("cargo-" + hashlib.sha1(TARGET.encode()).hexdigest()[:8]):
             rc, out, err = sh(cmd, cwd=HARNESS, env=env, timeout=3000)
         if rc != 0:
             # the harness could not be built against the current /repo tree: correspondence cannot run
-            self.oblige("cargo build harness (%s) against /repo working tree" % ",".join(bins), False, err[-3000:])
+            self.oblige("cargo build harness (%s%s) against /repo working tree" % (",".join(bins), (" profile " + profile) if profile else ""), False, err[-3000:])
             return False
         return True
 
-    def harness(self, binname, args, timeout=None):
+    def harness(self, binname, args, timeout=None, profile=None):
         if timeout is None:
             timeout = 600 if self.tier == "quick" else 3600
-        cmd = [os.path.join(TARGET, "debug", binname)] + args + ["--seed", str(self.seed), "--tier", self.tier]
+        cmd = [os.path.join(TARGET, profile or "debug", binname)] + args + ["--seed", str(self.seed), "--tier", self.tier]
         try:
             rc, out, err = sh(cmd, cwd=HARNESS, timeout=timeout, env={"RUST_BACKTRACE": "0"})
         except subprocess.TimeoutExpired:
